@@ -35,15 +35,15 @@ def classify(callee):
         return ("TICKET", name)
     if callee["local"]:
         if callee["trait"] is None:
-            if base.endswith("price_level::order_queue::OrderQueue") or base == "OrderQueue":
+            if base.split("::")[-1] == "OrderQueue":
                 return ("Q", name)
             if base.endswith("PriceLevelStatistics"):
                 return ("STAT", name)
             if base.endswith("UuidGenerator"):
                 return ("GEN", name)
-            if base.endswith("execution::transaction::Transaction") and name == "new":
+            if base.split("::")[-1] == "Transaction" and name == "new":
                 return ("TX", name)
-            if base.endswith("execution::match_result::MatchResult") and name in ("add_transaction", "add_filled_order_id"):
+            if base.split("::")[-1] == "MatchResult" and name in ("add_transaction", "add_filled_order_id"):
                 return ("RES", name)
     for nd in NONDET:
         if cn == nd or cn.endswith("::" + nd):
